@@ -458,3 +458,19 @@ Definition cmd_valid (c : cmd) : Prop :=
   | CIns _ typed => line_valid typed
   | _ => True
   end.
+
+(* ---------- a smaller declarative reference for the deletes inside the cursor line (C08_refines_partial) ---------- *)
+(* the cursor line is body ++ ["\n"], the cursor offset is o, n = max 1 count; [a, z) = the span of the
+   body that x / X / D remove *)
+Inductive lkey := Lx | LX | LD.
+Definition ref_span (k : lkey) (n o len : Z) : Z * Z :=
+  match k with
+  | Lx => (o, Z.min (o + n) len)
+  | LX => (Z.max (o - n) 0, o)
+  | LD => (o, len)
+  end.
+(* new body and deleted text *)
+Definition ref_line_delete (body : list chr) (a z : Z) : list chr * list chr :=
+  (firstn (Z.to_nat a) body ++ skipn (Z.to_nat z) body, firstn (Z.to_nat (z - a)) (skipn (Z.to_nat a) body)).
+Definition lcmd (k : lkey) (y : N) (cnt : Z) : cmd :=
+  match k with Lx => c_x y cnt | LX => c_X y cnt | LD => c_D y cnt end.
